@@ -936,7 +936,8 @@ impl<'fds, 'body: 'fds> MessageBodyParser<'body> {
                 self.buf_idx,
             );
 
-            let sig = &crate::signature::Type::parse_description(sig_str).unwrap()[0];
+            let sigs = crate::signature::Type::parse_description(sig_str)?;
+            let sig = sigs.first().ok_or(UnmarshalError::WrongSignature)?;
 
             match crate::wire::unmarshal::container::unmarshal_with_sig(sig, &mut ctx) {
                 Ok(res) => {
